@@ -169,7 +169,25 @@ const STREAM_LAND: u64 = 4;
 
 fn run_history(sim: &mut Sim, pool: &[TlDesc], tl0: usize, two: bool, steps: &[(Op, Duration)], acc: &mut Acc, stream: u64, index: u64, verbose: bool) {
     let init = Cv { x: 7.0, y: -3.0, n: 42 };
-    let e = sim.app.world.spawn((init.clone(), Animator::<Cv>::with_timeline(pool[tl0].build_cv()))).id();
+    // a fresh animator comes from any of the public constructors; `as_disabled` keeps it from starting
+    let start_disabled = index % 7 == 6;
+    let fresh = {
+        let a = match index % 4 {
+            0 | 1 => Animator::<Cv>::with_timeline(pool[tl0].build_cv()),
+            2 => {
+                let mut a = Animator::<Cv>::new();
+                a.set_timeline(pool[tl0].build_cv());
+                a
+            }
+            _ => {
+                let mut a = Animator::<Cv>::default();
+                a.set_timeline(pool[tl0].build_cv());
+                a
+            }
+        };
+        if start_disabled { a.as_disabled() } else { a }
+    };
+    let e = sim.app.world.spawn((init.clone(), fresh)).id();
     let dv_desc = TlDesc { delay: 0.125, cycle: 0.25, repeat: Repeat::Times(1), reverse: false, variant: 0 };
     if two {
         sim.app.world.entity_mut(e).insert((Dv { z: 0.5 }, Animator::<Dv>::with_timeline(dv_desc.build_dv())));
@@ -183,10 +201,28 @@ fn run_history(sim: &mut Sim, pool: &[TlDesc], tl0: usize, two: bool, steps: &[(
             ("failing_frame", J::U(k as u64)), ("invariant", J::s(what)),
         ])
     };
-    let mut last_post: Option<AnimationState> = None;
+    let mut last_post: Option<AnimationState> = Some(AnimationState::None);
     let mut ok = true;
-    // `enabled` is only ever changed by the monitor's own operations
-    let mut model_enabled = true;
+    // `enabled` is only ever changed by the monitor's own operations (and by `as_disabled` at construction)
+    let mut model_enabled = !start_disabled;
+    {
+        // the run the property speaks of starts at a fresh animator: state None, position zero, enabled
+        // unless built with `as_disabled`
+        let f = snap::<Cv>(sim, e);
+        acc.eval();
+        if f.state != AnimationState::None || f.pos != Duration::ZERO || f.enabled != model_enabled {
+            acc.violation(
+                "c18:fresh-animator",
+                format!(
+                    "a freshly constructed animator (constructor variant {}, as_disabled: {start_disabled}) has state {:?}, position {:?}, enabled {}; expected None, 0, {}",
+                    index % 4, f.state, f.pos, f.enabled, model_enabled
+                ),
+                case(0, "3 (a run starts in None at position zero; only the user toggles `enabled`)"),
+            );
+            sim.app.world.despawn(e);
+            return;
+        }
+    }
     for (k, (op, di)) in steps.iter().enumerate() {
         // operations between frames
         let mut expect_state = last_post;
